@@ -22,6 +22,11 @@
     * `h.all (stepOk c)` — the master reports no task in a non-terminal state that the KILL branch does not
       list (for the code: TASK_UNREACHABLE, only sent to PARTITION_AWARE frameworks; `C18_not_partition_aware_is_code`);
     * `noReconnWhileOwning` — only for `C18_owned_spared_partial`: FORCED by the code, see the finding.
+
+  "Every task of its previous life that Mesos still reports as alive is killed" is stated per reconciliation
+  ROUND (`C18_orphans_killed_every_round`): the KILL of an orphan listed at a quiet point is newer than the
+  latest RECONCILE call of the current life. Nothing in the model obliges a task to die when KILLed, so the
+  histories include orphans that outlive any number of KILLs and reconnections.
 -/
 import ControlModel.Proofs.Reconcile
 
@@ -106,16 +111,36 @@ theorem C18_identity_persisted (c : Cfg) (W : World) (hc : Sound c) (hW : ∀ n 
 theorem C18_orphans_killed (c : Cfg) (W : World) (hc : Sound c) (hW : ∀ n t, W.answers n t = true)
     (kv0 : Option Nat) (h : List Step) (hh : h.all (stepOk c) = true) :
     orphansKilled (run c W h (init kv0)).log = true :=
+  orphansKilled_of_eachRound _ (inv_run c W hc hW h hh _ (inv_init c kv0)).q.spec
+
+/-- **Orphans killed after EVERY reconciliation round** (strictly stronger than `C18_orphans_killed`, see
+    `C18_every_round_implies_once`). Whenever the system is quiescent in some life, every task of an earlier
+    life that the master still holds in a listed state has received a KILL from the current life that is
+    NEWER than the latest RECONCILE call of that life: the KILL answers the latest reconciliation answer
+    reporting the task alive. So an orphan that survives its KILL — the call was lost with the connection, the
+    agent is partitioned, the task hangs in TASK_KILLING — is killed again after every re-subscription, for as
+    long as the master reports it; a core that sends "one KILL per orphan" does not satisfy this
+    (`C18_one_kill_per_orphan_is_not_enough`). For ALL histories, same hypotheses as `C18_orphans_killed`. -/
+theorem C18_orphans_killed_every_round (c : Cfg) (W : World) (hc : Sound c) (hW : ∀ n t, W.answers n t = true)
+    (kv0 : Option Nat) (h : List Step) (hh : h.all (stepOk c) = true) :
+    orphansKilledEachRound (run c W h (init kv0)).log = true :=
   (inv_run c W hc hW h hh _ (inv_init c kv0)).q.spec
 
+/-- The per-round predicate implies the per-task one, on every log (also on the log of the real core). -/
+theorem C18_every_round_implies_once (log : List Out) (h : orphansKilledEachRound log = true) :
+    orphansKilled log = true :=
+  orphansKilled_of_eachRound log h
+
 /-- The same on the state instead of the observer's snapshots: in a quiescent state no task of an earlier
-    life is alive (killable) without a KILL of the current life in the log. -/
+    life is alive (killable) without a KILL of the current life in the log — sent since the latest RECONCILE
+    call of the current life. -/
 theorem C18_no_task_survives_unowned (c : Cfg) (W : World) (hc : Sound c) (hW : ∀ n t, W.answers n t = true)
     (kv0 : Option Nat) (h : List Step) (hh : h.all (stepOk c) = true) :
     let s := run c W h (init kv0)
     s.alive = true → s.connected = true → s.queue = [] → s.inbox = [] →
     ∀ t ∈ s.tasks, t.life < s.life → c.killable t.state = true →
-      ∃ owned, Out.kill s.life t.id (.update .recon) owned ∈ s.log := by
+      ∃ owned, Out.kill s.life t.id (.update .recon) owned ∈ sinceReconcile s.life s.log ∧
+               Out.kill s.life t.id (.update .recon) owned ∈ s.log := by
   intro s ha hcn hq hi t ht hlt hk
   have i := inv_run c W hc hW h hh _ (inv_init c kv0)
   simp only [St.connected, Bool.and_eq_true] at hcn
@@ -127,7 +152,32 @@ theorem C18_no_task_survives_unowned (c : Cfg) (W : World) (hc : Sound c) (hW : 
     | some g => rw [hh'] at h0; cases h0
   · rw [hq] at h2; cases h2
   · rw [hi] at h2; cases h2
-  · exact h3
+  · obtain ⟨o, ho⟩ := h3
+    exact ⟨o, ho, sinceReconcile_sub _ _ _ ho⟩
+
+/-- A history in which an orphan SURVIVES its KILL (nothing obliges a task to die): life 2 kills task 0 after
+    its first reconciliation, the stream is dropped, life 2 re-subscribes and reconciles again, the master
+    reports the task RUNNING again. -/
+def C18_witness_survivor : List Step :=
+  [.coreStart, .subscribe, .read, .launch 0 0, .status 0 .running, .read, .handle, .coreKill,
+   .coreStart, .subscribe, .read, .read, .handle, .snapshot,
+   .drop, .subscribe, .read, .read, .handle, .snapshot]
+
+/-- What the model's core (= the code) does on it: TWO KILLs of life 2 for task 0, one per round. -/
+theorem C18_survivor_is_killed_again :
+    ((run unguardedCfg World.complete C18_witness_survivor (init none)).log.filter (isReconKill 2 0)).length = 2 ∧
+    ((run guardedCfg World.complete C18_witness_survivor (init none)).log.filter (isReconKill 2 0)).length = 2 := by
+  decide
+
+/-- "One KILL per orphan task is enough" is NOT what the property asks: the log of a core that behaves like
+    the model except that it skips the KILL for a task it has KILLed before (here: the model's log on the
+    survivor history with the second KILL removed) satisfies the per-task predicate but not the per-round
+    one. This is why `Spec.C18.all` contains `orphansKilledEachRound`. -/
+theorem C18_one_kill_per_orphan_is_not_enough :
+    let log := run unguardedCfg World.complete C18_witness_survivor (init none) |>.log
+    let once := log.eraseP (isReconKill 2 0)   -- newest first: drops the SECOND KILL
+    orphansKilled once = true ∧ orphansKilledEachRound once = false ∧ orphansKilledEachRound log = true := by
+  decide
 
 /-- … and such a task is never in the roster of the new life (it is "unowned"): the roster only holds tasks
     launched by the current life. -/
@@ -208,12 +258,13 @@ theorem C18_code_meets_spec (W : World) (hW : ∀ n t, W.answers n t = true) (kv
   have hs := C18_cfg_sound codeCfg hc
   have h1 := C18_same_identity codeCfg W hs.seed hs.failover kv0 h
   have h2 := C18_orphans_killed codeCfg W hs hW kv0 h hh
+  have h2' := C18_orphans_killed_every_round codeCfg W hs hW kv0 h hh
   have h4 := C18_updates_never_kill codeCfg (by rcases hc with e | e <;> rw [e] <;> rfl) W kv0 h
   have h3 : ownedSpared (run codeCfg W h (init kv0)).log = true := by
     rcases hno with hg | hno
     · exact C18_owned_spared_fixed codeCfg hg W kv0 h
     · exact C18_owned_spared_partial codeCfg W hs.seed hs.failover kv0 h hno
-  simp [Spec.C18.all, h1.1, h1.2, h2, h3, h4]
+  simp [Spec.C18.all, h1.1, h1.2, h2, h2', h3, h4]
 
 /-! ## non-vacuity -/
 
@@ -225,6 +276,13 @@ example :
     h.all (stepOk unguardedCfg) = true ∧ noReconnWhileOwning unguardedCfg World.complete h (init none) = true ∧
     (run unguardedCfg World.complete h (init none)).log.head? = some (.snap 2 [0, 1]) ∧
     Spec.C18.all (run unguardedCfg World.complete h (init none)).log = true := by decide
+
+/-- The survivor history is legal (complete answers, listed states, no reconnection while owning), both
+    snapshots list the orphan, and the whole Spec holds of the model's log. -/
+example : C18_witness_survivor.all (stepOk unguardedCfg) = true ∧
+    noReconnWhileOwning unguardedCfg World.complete C18_witness_survivor (init none) = true ∧
+    (run unguardedCfg World.complete C18_witness_survivor (init none)).log.head? = some (.snap 2 [0]) ∧
+    Spec.C18.all (run unguardedCfg World.complete C18_witness_survivor (init none)).log = true := by decide
 
 /-- The witness of the finding is a legal history for the other theorems (complete answers, listed states). -/
 example : C18_witness_reconnect.all (stepOk unguardedCfg) = true ∧
